@@ -692,19 +692,7 @@ func ruleSnapshotCount(r *Report) {
 
 // fieldsStored: names of the fields of *alloc (or of a named result) that fn stores.
 func fieldsStoredOn(fn *ssa.Function, structName string) map[string][]ssa.Value {
-	out := map[string][]ssa.Value{}
-	allInstrs(fn, func(ins ssa.Instruction) {
-		st, ok := ins.(*ssa.Store)
-		if !ok {
-			return
-		}
-		fr, ok := fieldOf(st.Addr)
-		if !ok || fr.Struct != structName {
-			return
-		}
-		out[fr.Field] = append(out[fr.Field], st.Val)
-	})
-	return out
+	return storesDeep(fn, structName)
 }
 
 // aliasesField: the slice value shares memory with field `name` of the receiver: the field itself,
